@@ -261,7 +261,11 @@ def check_cpl(c, repo):
                 continue
             v = p_['appends'][0]
             if kind == 'TEXT':
-                ok = isinstance(v, ast.Call) and dotted(v.func) == 're.compile' and len(v.args) == 2 and isinstance(v.args[1], ast.Name) \
+                # the flags: the variable computed before the loop (D2 checks it), or -- when they are computed per pattern -- their value on this path
+                fl_ok = len(v.args) == 2 and (isinstance(v.args[1], ast.Name) or
+                                              norm(v.args[1]) in ('re.DOTALL', 're.DOTALL | re.IGNORECASE', 're.IGNORECASE | re.DOTALL')) \
+                    if isinstance(v, ast.Call) else False
+                ok = isinstance(v, ast.Call) and dotted(v.func) == 're.compile' and fl_ok \
                     and norm(v.args[0]) == 'self._coerce_expect_string(%s)' % pv
             elif kind in ('EOF', 'TIMEOUT'):
                 ok = norm(v) in (pv, kind)
@@ -363,7 +367,11 @@ def check_flags(c, repo):
     c.check(ok, f, ks[0] if ks else None, 're.compile receives those flags', witness=norm(ks[0]) if ks else '', kind='alg', tag='flags-used')
     loops = [n for n in iter_nodes(f.node) if isinstance(n, ast.For)]
     mods = [n for n in asg if any(p is loops[0] for p in parent_chain(n.ast))] if loops else []
-    c.check(not mods, f, mods[0].ast if mods else None, 'the flags are fixed before the loop (the same for every pattern of the list)', kind='ast', tag='flags-loop-invariant')
+    # nothing is carried from one pattern to the next: the flags are fixed before the loop, or every iteration starts them afresh from DOTALL
+    kn = g.node_for(ks0[0])
+    fresh = bool(loops) and a0 in mods and kn is not None and g.path(g.node_of_stmt(loops[0]), {kn}, avoid={a0}, skip_labels=('exc',), include_start=False) is None
+    c.check(not mods or fresh, f, mods[0].ast if mods else None, 'the flags are the same for every pattern of the list (fixed before the loop, or started afresh for each pattern)',
+            kind='ast', tag='flags-loop-invariant')
 
 
 def check_order(c, repo):
